@@ -50,6 +50,22 @@ class DOmit(Dialect):
     serialize_by_alias = True
 
 
+def _ser_opt(v) -> typing.Optional[float]:
+    return None
+
+
+def _ser_list(v) -> typing.List[int]:
+    return [v]
+
+
+def _ser_map(v) -> typing.Dict[str, typing.Optional[int]]:
+    return {"v": v}
+
+
+def _ser_union(v) -> typing.Union[int, str]:
+    return v
+
+
 def family(kind, cfg):
     """Build a fresh dataclass family under configuration cfg; returns the root type."""
     ns = {}
@@ -114,6 +130,12 @@ def family(kind, cfg):
         return dataclasses.make_dataclass("DeserOnly", [("d", datetime.date), ("m", typing.Dict[str, datetime.date], F(default_factory=dict)),
                                                        ("x", int, F(default=1, metadata={"serialization_strategy": {"deserialize": int}}))],
                                           bases=(DataClassDictMixin,), namespace=ns2)
+    if kind == "ser_fn":
+        # field-level serialize callables whose return annotation is itself a container / Optional / union
+        return dataclasses.make_dataclass(
+            "SerFn", [("o", int, F(metadata={"serialize": _ser_opt})), ("l", int, F(default=1, metadata={"serialize": _ser_list})),
+                      ("m", int, F(default=2, metadata={"serialize": _ser_map})), ("u", int, F(default=3, metadata={"serialize": _ser_union}))],
+            bases=(DataClassDictMixin,), namespace=ns)
     if kind == "ann_generic":
         TT = typing.TypeVar("TT")
         G = dataclasses.make_dataclass("AG", [("g", TT)], bases=(typing.Generic[TT], DataClassDictMixin), namespace=dict(ns))
